@@ -25,6 +25,7 @@
 #include "preprocess_argv.h"
 #include "vector_string.h"
 
+#include <stdlib.h>
 #include <algorithm>
 #include <set>
 #include <map>
@@ -606,6 +607,17 @@ int main(int argc, char *argv[]) {
   int flag;
 
   preprocess_argv(argc, argv);
+
+  // Options and filenames may be mixed freely on our command line.  Don't let
+  // a POSIXLY_CORRECT that happens to be in the environment make getopt stop
+  // at the first filename, which would turn the options after it into
+  // filenames: the same command must mean the same thing everywhere.
+#ifdef _WIN32
+  _putenv("POSIXLY_CORRECT=");
+#else
+  unsetenv("POSIXLY_CORRECT");
+#endif
+
   flag = getopt_long_only(argc, argv, short_options, long_options, nullptr);
   while (flag != EOF) {
     switch (flag) {
